@@ -71,11 +71,14 @@ CHECKS = {
  "C11": dict(
    text="Theorems (closed): C11_eval_binop_table - for every operator and ALL operand values whose types form a row of the documented table (typed in row by row in Spec/ProcSpec.v) the evaluator "
         "returns the table's typed operation on the coerced operands with the row's result type, or the division-by-zero panic for / % with zero divisor and nothing else; C11_outside_table; "
-        "C11_unops; C11_atoi_itoa (decimal rendering/parsing inverse on int64). Tie: exhaustive operators x boundary values of the three types through a transform and a predicate against an "
-        "independent Python transcription of the table; precedence/associativity: expression trees to depth 4 in minimal and full parenthesisation must parse to the same tree.",
-   note="The precedence clause is decided on the implementation by the tree round trip; the theorem about the Pratt parser model is part of the front-end work (partial until then). The table rows "
-        "'_number_ op number' are read as 'string op number' (what the checker accepts). Known finding K23 (division by zero). Repaired: 8e72253 (number ==/!=), 68ede24 (bool comparisons).",
-   technique="Coq proof (case analysis on operator x operand types, values universally quantified) + exhaustive boundary-value differential against an independent table",
+        "C11_unops; C11_atoi_itoa (decimal rendering/parsing inverse on int64); C11_precedence_roundtrip - operators bind as documented (and/or < == != < comparisons < + - < * / % < unary) and "
+        "associate to the left: for EVERY expression tree and EVERY way of writing it with parentheses at least where that reading needs them (minimal, full, anything in between, redundant ones) "
+        "the Pratt parser returns exactly that tree and consumes all tokens. Tie: exhaustive operators x boundary values of the three types through a transform and a predicate against an "
+        "independent Python transcription of the table; expression trees to depth 4 in minimal and full parenthesisation must parse to the same tree on the implementation; the parser model is "
+        "compared with the implementation's trees on every front-end source (CORR-PARSE).",
+   note="The table rows '_number_ op number' are read as 'string op number' (what the checker accepts). Known finding K23 (division by zero). Repaired: 8e72253 (number ==/!=), 68ede24 (bool "
+        "comparisons). The precedence theorem is about token lists; that expression tokens are what the lexer produces is C15's one-token-per-element theorem.",
+   technique="Coq proof (case analysis on operator x operand types, values universally quantified; continuation-passing induction over the ways of writing an expression) + exhaustive boundary-value differential against an independent table",
    ref="DESIGN.md 7 C11"),
  "C12": dict(
    text="Theorems (closed): C12_check_expr_iff / C12_check_expr_type - the checker's answer on expressions is the declarative typing over the documented table (accept iff well typed, with that "
